@@ -270,9 +270,11 @@ class World:
                 content = content + 'touched %d\n' % v
             with open(p, 'w', encoding='utf-8', newline='') as f:
                 f.write(content)
-            os.utime(p, (T_BASE + 10 * v, T_BASE + 10 * v))
+            # versions are 0.3 s apart: an edit within the same wall-clock second is still an edit
+            ns = T_BASE * 1_000_000_000 + 300_000_000 * v
+            os.utime(p, ns=(ns, ns))
         else:
-            ns = self.touch_base + 10 * v * 1_000_000_000
+            ns = self.touch_base + 300_000_000 * v
             os.utime(p, ns=(ns, ns))
 
     def initial_tree(self, init):
